@@ -236,6 +236,9 @@ func (e *Exec) loopCut(st *State, fr *Frame, b, pred *ssa.BasicBlock) bool {
 				}
 			}
 		}
+		for _, be := range spec.BodyEnsures {
+			e.Assert(base+"/body["+be.Label+"]", "post", fr.fn.String(), st, e.evalBool(be.Expr, env), be.Expr)
+		}
 		for _, inv := range spec.Invariants {
 			e.Assert(base+"/inv-pres["+inv.Label+"]", "inv-pres", fr.fn.String(), st, e.evalBool(inv.Expr, env), inv.Expr)
 		}
